@@ -150,6 +150,6 @@ def obligations(facts):
         body = [_t(x) for x in stmts_of(loops[0]["b"])] if loops else []
         if loops and not body:
             body = [_t(loops[0]["b"])]
-        ok = bool(loops) and body == ["(buckets[i]-=buckets[(i-1)])"] and txt(loops[0].get("c")).replace(" ", "") == C("(i>0)")
+        ok = bool(loops) and body == ["(buckets[i]-=buckets[(i-1)])"] and txt(loops[0].get("c")).replace(" ", "") in (C("(i>0)"), C("(i!=0)"))
         rep("tdigest.query", "tdigest::get_PMF:differences", fn, ok, "PMF = adjacent differences of the CDF, from the back", "PMF loop is %s / %s" % (body, txt(loops[0].get("c")) if loops else "?"))
     return out
